@@ -886,10 +886,19 @@ def rule_e17(ctx):
             raise AnchorMissing("E17: %s not found" % fid)
         body = ctx.body(fid)
         loops = [lp for lp in body.loops() if any(body.term(b) and body.term(b)["k"] == "call" and mir.last_seg(mir.callee(body.term(b)) or "") == "next" for b in lp["body"])]
+        rev = any(mir.last_seg(mir.callee(t) or "") == "rev" for _, t in body.calls())
+        firsts = [(b, t) for b, t in body.calls() if (t["func"].get("declared") or "") in ("std::iter::Iterator::find_map", "std::iter::Iterator::find") and not body.blocks[b]["cleanup"]]
+        if not body.loops() and len(firsts) == 1:
+            # `self.0.iter().rev().find_map(|scope| scope.get(name))`: the adaptor answers with the first hit by definition
+            if not rev:
+                res.bad(Finding("E17", fid, "scopes walked outermost first", "the scope list is not reversed before it is searched: an outer binding of the name is found before the inner one that shadows it", body.fn["sp"]))
+            else:
+                res.ok({"function": fid, "verdict": "scopes searched in reverse (innermost first)"})
+            res.ok({"function": fid, "verdict": "%s answers with the first scope that binds the name" % mir.last_seg(firsts[0][1]["func"]["declared"])})
+            continue
         if len(loops) != 1:
             raise AnchorMissing("E17: %s does not walk the scopes in one loop" % fid)
         lp = loops[0]
-        rev = any(mir.last_seg(mir.callee(t) or "") == "rev" for _, t in body.calls())
         if not rev:
             res.bad(Finding("E17", fid, "scopes walked outermost first", "the scope list is not reversed before it is walked: an outer binding of the name is found before the inner one that shadows it", body.fn["sp"]))
         else:
